@@ -31,6 +31,23 @@ Parts
   QH   the <=2 sequences again after a history (A, B)
   T    two overlapping spans + base style on a Text (styles made by
        Style.__add__), fresh and after a history
+  D    styles of ONE buffer derived from one another: one base object (6 bases),
+       optionally hashed / used as a dict key / written before, then 2 (quick) /
+       3 (thorough) styles derived from it by update_link(other|None), copy(),
+       without_color, + link style, + attribute style (paths of length 2 in
+       thorough), optionally hashing every derived style; as Segments and as
+       Text spans on {None,standard,truecolor} x no_color x legacy_windows.
+       Finding keys get the prefix ``derived/`` when independently built equal
+       styles are written correctly.
+  F    target history: a console that follows sys.stdout / sys.stderr (no
+       file=, no force_terminal) or owns a file, created while the stream is a
+       tty-like or a plain fake; all histories of <=4 (quick) / <=5 (thorough)
+       steps over {print styled+control segments, console.control()+bell(),
+       swap the std stream to a tty-like fake, to a plain fake, console.file =
+       tty-like fake, = plain fake}; after every step what reached the CURRENT
+       target is judged with the clauses for that target and nothing may reach
+       any other stream (prefix ``target-history/`` when a console created for
+       that target is right). sys.stdout / sys.stderr are restored in finally.
 
 A failing case that has a history is re-executed with fresh objects; when the
 fresh write is right the finding key gets the prefix ``history/`` (the defect is
@@ -38,10 +55,10 @@ in what the objects remember, not in what they emit).
 
 Measured (machine shared with other jobs, load average 80-90 on 16 cores, so CPU
 time is the meaningful number):
-  quick    882,788 judged writes, ~5.1 k outcome signatures, ~190-270 CPU-s
-           (41 s wall with 6 workers when the machine was quieter; ~15 s on 16 idle cores)
-  thorough 5,792,724 judged writes, ~5.2 k outcome signatures, ~1540 CPU-s
-           (1327 s wall with 6 workers at load 90; ~2 min on 16 idle cores)
+  quick    962,732 judged writes (D 73,728; F 6,216), ~6.0 k outcome signatures,
+           ~200-220 CPU-s (46-73 s wall with 6 workers on the shared machine)
+  thorough 7,716,636 judged writes (D 1,886,592; F 37,320); before D and F were added
+           5,792,724 took ~1540 CPU-s; D and F add ~580 CPU-s (~2.5 min on 16 idle cores in all)
 """
 import io
 import itertools
@@ -421,16 +438,21 @@ def _expected(mode, segs, spans, cfg, derive):
 
 def judge(out, mode, segs, spans, cfg, derive="same"):
     """-> list of (key, detail); pure function of the written text and the description"""
+    exp_cells, exp_controls = _expected(mode, segs, spans, cfg, derive)
+    return judge_stream(out, cfg, exp_cells, exp_controls, sum(t.count(ESC) for t, _, ctl in segs if ctl))
+
+
+def judge_stream(out, cfg, exp_cells, exp_controls, n_esc_control=0):
+    """The oracle proper: `out` reached a target described by cfg; exp_cells = [(char, visible, unstyled source)],
+    exp_controls = control tokens a terminal must receive, n_esc_control = ESC bytes inside control segments."""
     system, nc, term, legacy = cfg
     problems = []
     cells, controls, dec = decode(out)
-    exp_cells, exp_controls = _expected(mode, segs, spans, cfg, derive)
     toks, _rest = tokenize(out)
 
     if system is None:
         bad = [t for t in toks if (t[0] == "csi" and t[2] == "m") or (t[0] == "osc" and t[1].startswith("8;"))]
         # ESC bytes of control segments are judged by the (non-)terminal clauses below, not here
-        n_esc_control = sum(t.count(ESC) for t, _, ctl in segs if ctl)
         if bad or out.count(ESC) > n_esc_control:
             problems.append(("no-colour-system/escape-written",
                              "color_system=None but the file has %r" % (out,)))
@@ -657,14 +679,315 @@ def gen_T(tier):
                                    "ctor", "same")
 
 
-GENS = {"S": gen_S, "SH": gen_SH, "SH2": gen_SH2, "Q": gen_Q, "QH": gen_QH, "T": gen_T}
+
+# ------------------------------------------------------------------ part D: styles of ONE buffer derived from one another
+LINK3 = "ftp://th.ird/"
+D_BASES = [
+    _sd([("bold", True)], fg="color(1)", link=LINK),
+    _sd(fg="#ff8700", link=LINK),
+    _sd(link=LINK),
+    _sd([("bold", True)], fg="color(1)"),
+    _sd(fg="#ff8700", bg="color(100)"),
+    _sd([("italic", True)]),
+]
+D_OPS = ["relink", "relink3", "unlink", "copy", "nocolor", "pluslink", "plusattr"]
+D_PREPS = ["none", "hash", "dict", "written"]
+
+
+def _d_apply(style, op):
+    from rich.style import Style
+    if op == "relink":
+        return style.update_link(LINK2)
+    if op == "relink3":
+        return style.update_link(LINK3)
+    if op == "unlink":
+        return style.update_link(None)
+    if op == "copy":
+        return style.copy()
+    if op == "nocolor":
+        return style.without_color
+    if op == "pluslink":
+        return style + Style(link=LINK2)
+    if op == "plusattr":
+        return style + Style(overline=True)
+    raise ValueError(op)
+
+
+def _d_ref(ref, op):
+    if op == "relink":
+        return RefStyle(ref.attrs, ref.color, ref.bgcolor, LINK2)
+    if op == "relink3":
+        return RefStyle(ref.attrs, ref.color, ref.bgcolor, LINK3)
+    if op == "unlink":
+        return RefStyle(ref.attrs, ref.color, ref.bgcolor, None)
+    if op == "copy":
+        return ref
+    if op == "nocolor":
+        return RefStyle(ref.attrs, None, None, ref.link)
+    if op == "pluslink":
+        return ref + RefStyle(link=LINK2)
+    if op == "plusattr":
+        return ref + RefStyle({"overline": True})
+    raise ValueError(op)
+
+
+def _d_paths(maxlen):
+    yield ()
+    for n in range(1, maxlen + 1):
+        for p in itertools.product(D_OPS, repeat=n):
+            yield p
+
+
+def _d_write(cfg, mode, styles_):
+    from rich.segment import Segment
+    from rich.text import Text
+    console = make_console(cfg)
+    chars = "abcdefgh"[:len(styles_)]
+    if mode == "seg":
+        console.print(_Segs([Segment(ch, st) for ch, st in zip(chars, styles_)] + [Segment("z")]), end="")
+    else:
+        text = Text(chars + "z", end="")
+        for i, st in enumerate(styles_):
+            text.stylize(st, i, i + 1)
+        console.print(text, end="")
+    return console.file.getvalue()
+
+
+def run_case_D(case):
+    """One base Style object; optional hashing / use as dict key / earlier write; several styles derived from
+    it (and from each other) by the public derivation API; all of them in ONE buffer."""
+    from rich.segment import Segment
+    from rich.style import Style
+    mode, prep, hash_each = case["mode"], case["prep"], case["hash_each"]
+    base_sd = _norm({"mode": "seg", "cfg": case["cfg"], "segs": [["", case["base"], False]]})[1][0][1]
+    paths = [tuple(p) for p in case["paths"]]
+    cfg = tuple(case["cfg"])
+    refs = []
+    for path in paths:
+        r = ref_of(base_sd)
+        for op in path:
+            r = _d_ref(r, op)
+        refs.append(r)
+    exp_cells = [(ch, visible(r, cfg), False) for ch, r in zip("abcdefgh", refs)] + [("z", NULLVIS, True)]
+
+    def derived(with_history):
+        base = build_style(base_sd)
+        if with_history:
+            if prep == "hash":
+                hash(base)
+            elif prep == "dict":
+                {base: 1}[base]
+            elif prep == "written":
+                c0 = make_console(("truecolor", True, True, False))
+                c0.print(_Segs([Segment("p", base)]), end="")
+        out = []
+        for path in paths:
+            st = base
+            for op in path:
+                st = _d_apply(st, op)
+                if with_history and hash_each:
+                    hash(st)
+            out.append(st)
+        return out
+
+    def fresh():
+        out = []
+        for r in refs:   # the same styles built independently of one another from their descriptions
+            out.append(Style(color=r.color, bgcolor=r.bgcolor, link=r.link, **r.attrs))
+        return out
+
+    try:
+        problems = judge_stream(_d_write(cfg, mode, derived(True)), cfg, exp_cells, [])
+    except Exception as exc:           # noqa: BLE001
+        return [(_crash_key(exc), "%s: %s" % (type(exc).__name__, exc))], ("crash",), True
+    if problems:
+        try:
+            fresh_keys = {k for k, _ in judge_stream(_d_write(cfg, mode, fresh()), cfg, exp_cells, [])}
+        except Exception:              # noqa: BLE001
+            fresh_keys = set()
+        problems = [(k, d) if k in fresh_keys else
+                    ("derived/" + k, "styles %r derived from one Style object (prep=%s, hash_each=%s) in one %s buffer: %s "
+                     "-- independently built equal styles are right" % (paths, prep, hash_each, mode, d))
+                    for k, d in problems]
+    vis = [v for _, v, _ in exp_cells[:-1]]
+    sig = ("D", mode, cfg[0], bool(cfg[1]), cfg[3], prep, hash_each, len(paths), max(len(p) for p in paths),
+           len(set(vis)), len({v[3] for v in vis}))
+    return problems, sig, len(set(vis)) > 1 or any(v != NULLVIS for v in vis)
+
+
+def gen_D(tier):
+    cfgs = [(sy, nc, True, legacy) for sy in (None, "standard", "truecolor") for nc in (False, True)
+            for legacy in (False, True)]
+    p1 = list(_d_paths(1))
+    combos = [list(c) for c in itertools.product(p1, repeat=2)]
+    preps_long = D_PREPS
+    if tier != "quick":
+        combos += [list(c) for c in itertools.product(p1, repeat=3)]
+    for base in D_BASES:
+        bj = [[list(a) for a in base[0]], base[1], base[2], base[3]]
+        for prep in preps_long:
+            for hash_each in (False, True):
+                for paths in combos:
+                    for mode in ("seg", "spans"):
+                        for cfg in cfgs:
+                            yield {"part": "D", "mode": mode, "base": bj, "prep": prep, "hash_each": hash_each,
+                                   "paths": [list(p) for p in paths], "cfg": list(cfg)}
+        if tier != "quick":
+            # derivations of derivations (paths of length 2), pairs
+            p2 = list(_d_paths(2))
+            for prep in ("none", "hash"):
+                for hash_each in (False, True):
+                    for a in p2:
+                        for b in p2:
+                            if len(a) < 2 and len(b) < 2:
+                                continue
+                            for mode in ("seg", "spans"):
+                                for cfg in cfgs[4:]:
+                                    yield {"part": "D", "mode": mode, "base": bj, "prep": prep, "hash_each": hash_each,
+                                           "paths": [list(a), list(b)], "cfg": list(cfg)}
+
+
+# ------------------------------------------------------------------ part F: the target of a console changes
+class _Fake(io.StringIO):
+    """stream whose isatty() answer the harness controls"""
+
+    def __init__(self, tty):
+        io.StringIO.__init__(self)
+        self.tty = tty
+
+    def isatty(self):
+        return self.tty
+
+
+F_OPS = ["w", "c", "tty", "plain", "set-tty", "set-plain"]
+F_SEGS = [("x", _sd([("bold", True)], fg="color(1)"), False), ("\x1b[2K", None, True), ("y", None, False),
+          ("\x1b[1A", _sd([("bold", True)]), True)]
+
+
+def _f_console(system, follow, stream):
+    from rich.console import Console
+    kw = dict(width=80, height=25, color_system=system, no_color=False, legacy_windows=False, _environ={})
+    if follow == "file":
+        return Console(file=stream, **kw)
+    return Console(stderr=(follow == "stderr"), **kw)          # follows sys.stdout / sys.stderr
+
+
+def _f_write(console, op):
+    from rich.segment import Segment
+    if op == "w":
+        objs = {sd: build_style(sd) for _, sd, _ in F_SEGS if sd is not None}
+        console.print(_Segs([Segment(t, None if sd is None else objs[sd], ctl) for t, sd, ctl in F_SEGS]), end="")
+    else:
+        console.control("\x1b[1A")
+        console.bell()
+
+
+def _f_judge(op, delta, system, tty):
+    cfg = (system, False, tty, False)
+    if op == "w":
+        return judge(delta, "seg", F_SEGS, None, cfg)
+    exp_controls = [("csi", "1", "A"), ("c0", "\x07")] if tty else []
+    return judge_stream(delta, cfg, [], exp_controls, 1)
+
+
+def run_case_F(case):
+    """A console that follows sys.stdout / sys.stderr (no file=, no force_terminal) or owns a file; history over
+    {write, control, swap the followed std stream to a tty-like / plain fake, assign console.file}. After every
+    step what reached the CURRENT target is judged with the clauses of that target; nothing may reach another."""
+    import sys
+    follow, init, system, ops = case["follow"], case["init"], case["system"], case["ops"]
+    attr = "stderr" if follow == "stderr" else "stdout"
+    saved = (sys.stdout, sys.stderr)
+    problems = []
+    streams = []
+
+    def new(tty):
+        f = _Fake(tty)
+        streams.append(f)
+        return f
+
+    n_targets = 1
+    try:
+        try:
+            std = new(init == "tty")
+            setattr(sys, attr, std)
+            console = _f_console(system, follow, std)
+            explicit = std if follow == "file" else None
+            for step, op in enumerate(ops):
+                before = [len(f.getvalue()) for f in streams]
+                if op in ("tty", "plain"):
+                    std = new(op == "tty")
+                    setattr(sys, attr, std)
+                    before.append(0)
+                    n_targets += explicit is None
+                elif op in ("set-tty", "set-plain"):
+                    explicit = new(op == "set-tty")
+                    console.file = explicit
+                    before.append(0)
+                    n_targets += 1
+                else:
+                    _f_write(console, op)
+                target = explicit if explicit is not None else std
+                for f, b in zip(streams, before):
+                    delta = f.getvalue()[b:]
+                    if f is target and op in ("w", "c"):
+                        found = _f_judge(op, delta, system, f.tty)
+                        if found:
+                            fc = _f_console(system, "file", _Fake(f.tty))
+                            _f_write(fc, op)
+                            fresh_keys = {k for k, _ in _f_judge(op, fc.file.getvalue(), system, f.tty)}
+                            for k, d in found:
+                                if k in fresh_keys:
+                                    problems.append((k, d))
+                                else:
+                                    problems.append(("target-history/" + k,
+                                                     "console following %s, created on a %s stream, after steps %r the target "
+                                                     "is a %s: %s -- a console created for that target is right"
+                                                     % (follow, init, ops[:step], "terminal" if f.tty else "non-terminal", d)))
+                    elif delta:
+                        problems.append(("target/written-to-another-stream",
+                                         "step %d (%s) of %r wrote %r to a stream that is not the console's current target"
+                                         % (step, op, ops, delta)))
+                if problems:
+                    break
+        finally:
+            sys.stdout, sys.stderr = saved
+    except Exception as exc:           # noqa: BLE001
+        return [(_crash_key(exc), "%s: %s" % (type(exc).__name__, exc))], ("crash",), True
+    writes = [o for o in ops if o in ("w", "c")]
+    sig = ("F", follow, init, system, len(ops), ops[-1] if ops else "-", min(n_targets, 3), len(writes))
+    seen = {}
+    out = []
+    for k, d in problems:
+        if k not in seen:
+            seen[k] = 1
+            out.append((k, d))
+    return out, sig, bool(writes) and n_targets > 1
+
+
+def gen_F(tier):
+    maxlen = 4 if tier == "quick" else 5
+    for follow in ("stdout", "stderr", "file"):
+        for init in ("tty", "plain"):
+            for system in (None, "truecolor"):
+                for n in range(1, maxlen + 1):
+                    for ops in itertools.product(F_OPS, repeat=n):
+                        if ops[-1] not in ("w", "c"):
+                            continue            # a history that ends without a write shows nothing new
+                        yield {"part": "F", "follow": follow, "init": init, "system": system, "ops": list(ops)}
+
+
+DICT_RUNNERS = {"D": run_case_D, "F": run_case_F}
+
+GENS = {"S": gen_S, "SH": gen_SH, "SH2": gen_SH2, "Q": gen_Q, "QH": gen_QH, "T": gen_T,
+        "D": gen_D, "F": gen_F}
 
 
 def plan(tier, seed):
-    n = {"quick": {"S": 8, "SH": 10, "SH2": 4, "Q": 16, "QH": 4, "T": 2},
-         "thorough": {"S": 24, "SH": 32, "SH2": 8, "Q": 96, "QH": 4, "T": 4}}[tier]
+    n = {"quick": {"S": 8, "SH": 10, "SH2": 4, "Q": 16, "QH": 4, "T": 2, "D": 4, "F": 2},
+         "thorough": {"S": 24, "SH": 32, "SH2": 8, "Q": 96, "QH": 4, "T": 4, "D": 24, "F": 4}}[tier]
     shards = []
-    for part in ("S", "SH", "SH2", "Q", "QH", "T"):
+    for part in ("S", "SH", "SH2", "Q", "QH", "T", "D", "F"):
         shards += [{"part": part, "i": i, "n": n[part]} for i in range(n[part])]
     return shards
 
@@ -678,7 +1001,16 @@ def run_shard(sh, tier, seed):
         if idx % 256 == i and deadline_passed():
             res.capped = True
             break
-        _do(res, *c, sample=(idx % 50021 == 0))
+        if isinstance(c, dict):
+            problems, sig, nontrivial = DICT_RUNNERS[c["part"]](c)
+            res.evaluations += 1
+            res.sig(sig, nontrivial=nontrivial)
+            for key, detail in problems:
+                res.violate(key, c, detail)
+            if idx % 50021 == 0:
+                res.sample(c)
+        else:
+            _do(res, *c, sample=(idx % 50021 == 0))
     res.count("cases_" + sh["part"], res.evaluations)
     return res
 
@@ -695,12 +1027,20 @@ def describe(tier, seed, res):
                 "Style.render() as a step, copy/update_link/+ derivations%s. Q: all sequences of <=%d segments over "
                 "(12 styles + unstyled) x 4 texts + 4 control segments%s x 40 configurations x {cropped print, crop=False "
                 "(<=2), Text (<=2, no controls)}. QH: sequences <=2 over a reduced menu after a history (12 pairs A!=B). "
-                "T: 3 bases x 12 x 12 overlapping span pairs x (40 configurations + 12 histories A!=B). Non-trivial = the oracle had to see a "
+                "T: 3 bases x 12 x 12 overlapping span pairs x (40 configurations + 12 histories A!=B). "
+                "D: 6 base styles x prep {none, hash, dict key, written} x hash-every-derived-style {no, yes} x all %s of "
+                "derivations {same, update_link(u2), update_link(u3), update_link(None), copy, without_color, +link, +attr}%s "
+                "from the one base object in one buffer x {Segments, Text spans} x 12 configurations. "
+                "F: consoles following sys.stdout / sys.stderr / owning a file x created on tty-like|plain x system "
+                "{None, truecolor} x all histories of <=%d steps over {print, control+bell, swap std stream to tty-like, to plain, "
+                "console.file = tty-like, = plain} ending in a write; every step judged on the current target. Non-trivial = the oracle had to see a "
                 "styled character or a control segment, or a negative clause met a non-null style; distinct = distinct "
                 "(mode, configuration, history systems, derivation, expected attrs?/fg kind/bg kind/link?, controls?, long?) tuples."
                 % (ns, "" if tier == "quick" else "; attribute triples", len(K_QUICK if tier == "quick" else K_QUICK + K_MORE),
                    len(colour_styles(tier)), "" if tier == "quick" else ", 256 three-step histories",
-                   2 if tier == "quick" else 3, "" if tier == "quick" else " (third position: reduced menu of 28)"),
+                   2 if tier == "quick" else 3, "" if tier == "quick" else " (third position: reduced menu of 28)",
+                   "pairs" if tier == "quick" else "pairs and triples",
+                   "" if tier == "quick" else " plus pairs of derivation paths of length <=2", 4 if tier == "quick" else 5),
         "assumptions": [
             "Color.downgrade is the documented down-conversion (decided by C18); Color.parse of the 30 fixed colour specs is trusted",
             "'no control codes when not a terminal' is read as: no C0/CSI/OSC token other than SGR and OSC 8 reaches the file "
@@ -709,13 +1049,17 @@ def describe(tier, seed, res):
             "segments, which a terminal must still receive",
             "the style of a newline character is not judged (it shows nothing); hyperlink ids are ignored",
             "all consoles 80 columns wide; texts are <=3 cells so nothing is cropped or wrapped",
+            "part F: the target of a console without file= is whatever sys.stdout / sys.stderr is at the time of the write "
+            "(documented behaviour of Console.file); the colour system is given explicitly, 'auto' detection is not explored",
         ],
         "coverage": {"styles": ns, "transitions": res.counters.get("cases_SH", 0) + res.counters.get("cases_SH2", 0)
-                     + res.counters.get("cases_QH", 0)},
+                     + res.counters.get("cases_QH", 0) + res.counters.get("cases_D", 0) + res.counters.get("cases_F", 0)},
     }
 
 
 def replay(case):
+    if case.get("part") in DICT_RUNNERS:
+        return [(k, d) for k, d in DICT_RUNNERS[case["part"]](case)[0]]
     mode, segs, spans, hist, cfg, how, derive = _norm(case)
     problems, _sig, _nt = run_case(mode, segs, spans, hist, cfg, how, derive)
     return [(k, d) for k, d in problems]
